@@ -15,7 +15,8 @@ def write_meta(argv):
     note = argv[5] if len(argv) > 5 else ""
     d = os.path.join(ROOT, sid)
     log = open(os.path.join(d, "confirm.log")).read() if os.path.exists(os.path.join(d, "confirm.log")) else ""
-    suite = re.findall(r"=+ (.*(?:passed|failed).*) in [\d.]+s", log)
+    suite_part = log.split("-- repository test suite", 1)[-1]
+    suite = re.findall(r"=+ (.*(?:passed|failed).*) in [\d.]+s", suite_part)
     summ = re.search(r"demo_without_exit=(\d+) demo_with_exit=(\d+)", log)
     demo = [f for f in os.listdir(d) if f.startswith("demo")]
     meta = {
@@ -29,7 +30,7 @@ def write_meta(argv):
             "how": "tools_seed_confirm.sh: patch applied to a fresh scratch worktree of /repo HEAD; repository suite run "
                    "with the change (private network namespace with a veth pair, where the unmodified tree gives 295 passed); demonstration run without and with the change",
             "suite_with_change": suite[-1] if suite else None,
-            "suite_failures": re.findall(r"^(?:FAILED|ERROR) (.*)$", log, re.M),
+            "suite_failures": re.findall(r"^(?:FAILED|ERROR) (.*)$", suite_part, re.M),
             "demo_exit_without_change": int(summ.group(1)) if summ else None,
             "demo_exit_with_change": int(summ.group(2)) if summ else None,
         },
